@@ -207,9 +207,26 @@ def run(ctx):
         # offset table) and 4-grams reached through small nodes: a state that lost "x a b" cannot reach "x a b d" (seeded change C02-15)
         hub = (mi % 8 == 5) and not ctx.replay_model
         m = ctx.replay_model or lc.gen_model(rng, max_order=ctx.pick(5, 6), max_vocab=ctx.pick(6, 20), hub=hub)
+        if mi % 5 == 4 and not ctx.replay_model and not hub:
+            # a file whose n-gram `a b c` is listed while its context `a b` is not: every loader must refuse it (a model that loads anyway has
+            # a state after `a b` that cannot reach `a b c`: seventh-round seeded change C02-20 made the hashed builder tolerate it)
+            ctxs = sorted(k[1:] for k in m.grams if len(k) >= 3 and k[1:] in m.grams)
+            if ctxs:
+                c = rng.choice(ctxs)
+                del m.grams[c]
+                m.file_order[len(c)].remove(c)
+                stats["missing_context_models"] = stats.get("missing_context_models", 0) + 1
         sess = lc.Session(ctx, m, "m%d" % mi)
         # many short histories over a small vocabulary: plenty of colliding states
         qs = lc.gen_queries(rng, m, ctx.pick(60, 200))
+        if mi % 5 == 2 and m.sents:
+            # histories of more than 255 words (the whole-history entry point takes any length; a length kept in a byte wraps: C02-21)
+            for _ in range(2):
+                s = []
+                while len(s) < 258 + rng.below(40):
+                    s += list(rng.choice(m.sents))[1:]
+                qs.append((rng.below(2), s))
+            stats["long_history_queries"] = stats.get("long_history_queries", 0) + 2
         if hub:
             top = [k for k in sorted(m.grams) if len(k) == m.order]
             rng.shuffle(top)
